@@ -68,6 +68,7 @@ pub struct Controller {
     /// 0 off, 1 vertical, 2 both
     pub te: u8,
     pub page: u8,
+    pub page_switches: u64,
     pub soft_resets: u64,
     pub sleep_cmd_times: Vec<(u8, u64)>,
     pub madctl_writes: u64,
@@ -114,6 +115,7 @@ impl Controller {
             vscsad: 0,
             te: 0,
             page: 0,
+            page_switches: 0,
             soft_resets: 0,
             sleep_cmd_times: Vec::new(),
             madctl_writes: 0,
@@ -359,11 +361,15 @@ impl Controller {
                     self.madctl_writes += 1;
                 }
                 0x3A if n >= 1 => self.colmod = params[0],
-                0xFE if self.prof.paged && n >= 1 => self.page = params[0],
+                0xFE if self.prof.paged && n >= 1 => {
+                    self.page = params[0];
+                    self.page_switches += 1;
+                }
                 _ => {}
             }
         } else if op == 0xFE && n >= 1 {
             self.page = params[0];
+            self.page_switches += 1;
         }
         self.state_hash = crate::rng::splitmix64(
             self.state_hash
